@@ -28,10 +28,13 @@ with ThreadPoolExecutor(max_workers=5) as ex:
         for f in os.listdir(src):
             if f in ("patch.diff", "demo.sh", "demo_path.txt") or f.startswith("seeded_"):
                 shutil.copy(os.path.join(src, f), os.path.join(dst, f))
+            elif f == "demo_support" and os.path.isdir(os.path.join(src, f)):
+                shutil.copytree(os.path.join(src, f), os.path.join(dst, f), dirs_exist_ok=True)
         meta = json.load(open(src + "/meta.json"))
         meta["detected_by"] = det
         vr = open(src + "/verify_result.txt").read() if os.path.exists(src + "/verify_result.txt") else ""
-        ok = "2152 passed" in vr and "FAILED" in vr and "test result: ok" in vr
+        ok = "2152 passed" in vr and (("FAILED" in vr and "test result: ok" in vr) or
+                                      ("rc=1" in vr.split("without change")[0] and "rc=0" in vr.split("without change")[-1]))
         meta["verified"] = ("tools/verify_seed.sh on /repo %s: suite 2152/2152 with change; demo fails with change, passes without" % head) if ok else "NOT VERIFIED: " + vr[-300:]
         json.dump(meta, open(os.path.join(dst, "meta.json"), "w"), indent=1)
         print("%-6s own=%s detected_by=%s %s" % (n, n[:3] in det, det, ("BROKEN " + str(broken)) if broken else ""))
